@@ -763,6 +763,8 @@ def check_written(fd, scratch, pq, tag):
         fastparquet.write(path, df, file_scheme=fd["scheme"], times=fd["times"], compression=fd["compression"], stats=fd["stats"],
                           row_group_offsets=fd["rgo"], has_nulls=fd["has_nulls"],
                           custom_metadata=None if fd["kvlen"] is None else {"k": "v" * fd["kvlen"]})
+    except (ValueError, TypeError) as e:       # e.g. has_nulls=False with NA values: refusing is allowed
+        return [], {"footer": 0, "page_header": 0, "write_raised": 1}
     finally:
         fw.DATAPAGE_VERSION = old
     files = [path] if fd["scheme"] == "simple" else [os.path.join(path, f) for f in sorted(os.listdir(path))]
